@@ -358,8 +358,18 @@ func ruleR26(c *Ctx) {
 			for _, d := range ds {
 				nR++
 				key := fmt.Sprintf("%s (called in %s) %s %s", lu.Name, parent.Name, d.how, d.v.Name())
+				freshAtCallers := false
+				if pi := paramIndex(parent, d.v); pi >= 0 && !isTreeMethod(parent) && !assignedAnywhere(info, parent.Body, d.v) {
+					// the enclosing function is itself a helper (Insert → insert(keyS, colKey, val)):
+					// its parameter is what its callers pass
+					if okAll, n, _ := paramFreshAtCalls(parent, pi); okAll && n > 0 {
+						freshAtCallers = true
+					}
+				}
 				if fs.isFresh(d.v) {
 					c.r.ok("R26", key, m.pos(call.Pos()), "at this call "+d.v.Name()+" refers to a copy made by the library", props...)
+				} else if freshAtCallers {
+					c.r.ok("R26", key, m.pos(call.Pos()), d.v.Name()+" is a parameter of the helper "+parent.Name+": every call site in byte-keyed trees passes a copy made by the library", props...)
 				} else {
 					c.r.bad("R26", key, m.pos(call.Pos()), fmt.Sprintf("the closure stores a reference to the bytes of %s, which at this call may still be the caller's key slice: the leaf would alias the caller's buffer", d.v.Name()), props...)
 				}
